@@ -17,6 +17,7 @@ import (
 	"github.com/huderlem/poryscript/parser"
 
 	"pmc/internal/comp"
+	"pmc/internal/dict"
 	"pmc/internal/harness"
 	"pmc/internal/instr"
 	"pmc/internal/model"
@@ -321,7 +322,31 @@ func c17Section(out string, st c17Stmt) string {
 	})
 }
 
+// c17CtxFont is the font file of the context compilations: one font without a "default" width, so that glyphs
+// missing from the table are 0 wide, and a short line.
+var c17CtxFont string
+
+// c17DictStmts: two formatted texts. The first holds every word-like literal of the compiler's own source (the
+// sentinels it compares against: "default", "TEST", keywords, ...); the second consists of glyphs the font table
+// lacks. Neither may change because the other is in the file, whichever comes first.
+func c17DictStmts() []c17Stmt {
+	words := dict.Identifiers(dict.Load(repoDir()), 24)
+	return []c17Stmt{
+		{"FW", "text FW {\n\tformat(\"" + strings.Join(words, " ") + "\")\n}\n", regexp.MustCompile(`^FW$`), true},
+		{"FG", "text FG {\n\tformat(\"*** @@@ ### ~~~ ___ *** @@@ ### ~~~ ___ *** @@@ aa ### a ~~~\")\n}\n", regexp.MustCompile(`^FG$`), true},
+	}
+}
+
 func c17Context(r *harness.Run, tier string) {
+	if f, err := os.CreateTemp("", "pmc-c17-font-*.json"); err == nil {
+		f.WriteString(`{"defaultFontId": "f", "fonts": {"f": {"widths": {" ": 1, "a": 1, "e": 2}, "maxLineLength": 12, "numLines": 2, "cursorOverlapWidth": 0}}}`)
+		f.Close()
+		c17CtxFont = f.Name()
+		defer os.Remove(f.Name())
+	}
+	if len(c17Stmts) > 0 && c17Stmts[len(c17Stmts)-1].name != "FG" {
+		c17Stmts = append(c17Stmts, c17DictStmts()...)
+	}
 	maxOthers := 2
 	if tier == "thorough" {
 		maxOthers = 3
@@ -333,7 +358,7 @@ func c17Context(r *harness.Run, tier string) {
 		}
 		alone[st.name] = map[bool]string{}
 		for _, opt := range []bool{true, false} {
-			res := comp.Compile(st.src, comp.Opts{Optimize: opt})
+			res := comp.Compile(st.src, comp.Opts{Optimize: opt, FontPath: c17CtxFont})
 			if res.Err != nil {
 				r.Note("context statement %s rejected alone: %v", st.name, res.Err)
 				continue
@@ -357,7 +382,7 @@ func c17Context(r *harness.Run, tier string) {
 			}
 			src := strings.Join(parts, "\n")
 			for _, opt := range []bool{true, false} {
-				res := comp.Compile(src, comp.Opts{Optimize: opt})
+				res := comp.Compile(src, comp.Opts{Optimize: opt, FontPath: c17CtxFont})
 				r.Add("evaluations", 1)
 				r.Add("contexts", 1)
 				if len(others) >= 1 {
@@ -375,8 +400,10 @@ func c17Context(r *harness.Run, tier string) {
 					}
 					s2 := src
 					r.Report(harness.Violation{Sig: "C17:context:" + c17Stmts[x].name, Summary: fmt.Sprintf("the code emitted for %s depends on its neighbours %v (position %d, optimize=%v): %s", c17Stmts[x].name, names, pos, opt, firstDiff(got, want)),
-						Replay:  map[string]interface{}{"source": src, "statement": c17Stmts[x].name, "optimize": opt, "alone": want, "in_context": got},
-						Recheck: func() bool { return c17Section(comp.Compile(s2, comp.Opts{Optimize: opt}).Out, c17Stmts[x]) != want }})
+						Replay: map[string]interface{}{"source": src, "statement": c17Stmts[x].name, "optimize": opt, "alone": want, "in_context": got},
+						Recheck: func() bool {
+							return c17Section(comp.Compile(s2, comp.Opts{Optimize: opt, FontPath: c17CtxFont}).Out, c17Stmts[x]) != want
+						}})
 				}
 			}
 		}
